@@ -79,3 +79,29 @@ Theorem c05_literal_ifs_refuted :
   full_expand ex_oracles0 ex_colon_env [WText [97; 58; 98]%N] = Ok [[97]; [98]]%N.
 Proof. exact literal_ifs_refuted. Qed.
 Print Assumptions c05_literal_ifs_refuted.
+
+(** Brace expansion (Expand/Brace.v).  The products of the model — itertools' cartesian product of
+    the per-group alternatives, concatenated — are the words of the bash manual's rule (each
+    alternative of the first group followed by every word of the rest), in the same order, for
+    every tree (nesting, sequences, empty alternatives). *)
+From BV Require Import Expand.Brace.
+Theorem c05_brace_product_order : forall l, gen_nodes l = spec_words l.
+Proof. exact brace_product_order. Qed.
+Print Assumptions c05_brace_product_order.
+
+(** With the blank in IFS, products that are non-empty and free of IFS characters come out as one
+    field each: the join-with-a-blank-and-re-split detour of the code is invisible. *)
+Theorem c05_brace_plain_blank_ifs : forall e ws,
+  mem SP (ifs_of e) = true -> Forall (clean_word (ifs_of e)) ws ->
+  split_fields e (exp_of_str (join_with [SP] ws)) = map mk1 ws.
+Proof. exact brace_plain_blank_ifs. Qed.
+Print Assumptions c05_brace_plain_blank_ifs.
+
+(** Without the blank in IFS the statement is refuted: IFS=newline, {a,b}: specification (bash) two
+    words, model (code) one field "a b". *)
+Theorem c05_brace_refuted :
+  spec_words ex_brace_tree = [[97]; [98]]%N /\
+  split_fields ex_nl_env (exp_of_str (brace_expand_text true [123; 97; 44; 98; 125]%N (Some ex_brace_tree)))
+  = [[Splittable [97; 32; 98]%N]].
+Proof. exact brace_refuted. Qed.
+Print Assumptions c05_brace_refuted.
